@@ -136,6 +136,15 @@ CHECKS = {
              "placed in each scope kind: generation must fail or both names must stay usable.",
         note="Part A is exhaustive over the stated reduced alphabet and bound only; real names use a larger alphabet (case classes are represented by a/b/A/B).",
         design="4/C18"),
+    "C19": dict(
+        category="exploration",
+        technique="runtime monitoring: differential comparison of packages generated from one schema supplied as file / directory partitions / in-process introspection endpoint behind the real httpx.post call site (recorder logs url, headers, verify); failure-class enumeration for introspection responses",
+        text="Each seeded schema is supplied as one SDL file, as 2-3 random partitions into .graphql/.graphqls/.gql files in nested directories, and through an introspection "
+             "endpoint answered by graphql-core on the harness-built schema. Result modules must be textually identical, enums and client identical modulo class/import order, "
+             "input models must agree on names, required-ness and defaults; the recorder checks the headers ($ENV resolved) and the verify flag actually sent. 14 introspection "
+             "failure classes and 6 malformed urls must surface as IntrospectionError without creating the package.",
+        note="Trusted: graphql-core's introspection of the reference schema stands for a conformant remote endpoint; TLS itself is not exercised (verify is observed at the call boundary).",
+        design="4/C19"),
 }
 
 NOT_APPLICABLE = []
